@@ -12,6 +12,8 @@ def resolve (st : St) : List String → H × List String
   | "Q" :: t :: i :: l :: rest =>
     ((((st.trees.getD (nat! t) (⟨[]⟩, [])).1.createProof (nat! i)).getD (nat! l) (.junk 0)), rest)
   | "Z" :: k :: rest => (.junk (nat! k + 1), rest)
+  | "E" :: k :: rest => (emptyRoot (nat! k), rest)
+  | "D" :: d :: i :: p :: rest => (deriveRoot (.leaf (nat! d)) (nat! i) (st.proofs.getD (nat! p) []), rest)
   | rest => (.junk 0, rest)
 
 def setAt (l : List H) (j : Nat) (x : H) : List H := l.set j x
